@@ -167,6 +167,15 @@ def part_options(S, p):
         for k, q in enumerate(seqs):
             if k % NSHARD == p["i"] and (len(q) < 4 or k % 5 == 0):
                 run_case(S, ["view", "-m" if k % 2 else "-M", ",".join(map(str, q))], inp4, "view", "option-bounds axis-list", "option_bounds")
+    # option interaction: an axis list (valid, repeated, out of range, longer than the number of axes) TOGETHER with a projection
+    for shp in ([3], [2, 3], [2, 2, 3]):
+        inpx = GS.text_spectrum(shp, [float(x) for x in range(O.prod(shp))], 0)
+        dd = len(shp)
+        seqs = [q for k in range(1, dd + 3) for q in itertools.product(range(dd + 1), repeat=k)]
+        for k, q in enumerate(seqs):
+            if k % NSHARD == p["i"] and (len(q) <= 3 or k % 7 == 0):
+                proj = ["--project-shape", ",".join(["1"] * max(1, dd - len(set(q))))] if k % 2 else ["-p", ",".join(["0"] * max(1, dd - len(q)))]
+                run_case(S, ["view", "-m", ",".join(map(str, q))] + proj, inpx, "view", "option-bounds axis-list+projection", "option_bounds")
     # create options
     cs = G.random_callset(rng, nsamples=3, nrecords=4, complete_only=True, extras=False)
     vcf = cs.to_vcf()
